@@ -2,5 +2,6 @@ import DriverLib.Json
 import DriverLib.Tensors
 import DriverLib.Ops
 import DriverLib.ShapeOps
+import DriverLib.IndexOps
 import DriverLib.Dispatch
 import DriverLib.Graph
